@@ -29,7 +29,15 @@ var initAllow = []string{
 
 var initDeny = []string{load.Module + "/vrt"}
 
+// packages whose initialisers need reflection: never run (their entry points are stubbed)
+var initNever = []string{"github.com/danos/encoding/rfc7951"}
+
 func initOK(path string) bool {
+	for _, d := range initNever {
+		if path == d || strings.HasPrefix(path, d+"/") {
+			return false
+		}
+	}
 	for _, d := range initDeny {
 		if path == d {
 			return true
